@@ -3,6 +3,7 @@ package c14
 import (
 	"context"
 	"fmt"
+	"os"
 	"path/filepath"
 	"sort"
 	"strings"
@@ -151,6 +152,7 @@ func (o leakObs) persistentTrouble() bool {
 // takeBaseline is called after the warm-up, with no request in flight.
 func (fx *fixture) takeBaseline() bool {
 	fx.slack = 0
+	fx.baseConns = nil
 	fx.srv.HTTPClient.CloseIdleConnections()
 	var last leakObs
 	// Two consecutive identical observations = settled.
@@ -164,6 +166,27 @@ func (fx *fixture) takeBaseline() bool {
 		}
 		if last.sigs != nil && lib.SigString(last.sigs) == lib.SigString(o.sigs) && last.fd == o.fd && o.reserved == 0 && len(o.cacheFDs) == 0 {
 			fx.base = baseline{sigs: o.sigs, fd: o.fd, classes: o.classes}
+			// connection counts of the settled state: the minimum of a few samples
+			// (the /status exchange of the observation itself may still be closing)
+			var min map[string]int
+			for i := 0; i < 4; i++ {
+				fx.baseConns = nil
+				_, _ = fx.connTrouble()
+				if min == nil {
+					min = fx.baseConns
+				} else {
+					for k := range min {
+						if fx.baseConns[k] < min[k] {
+							min[k] = fx.baseConns[k]
+						}
+					}
+				}
+				time.Sleep(40 * time.Millisecond)
+			}
+			if min == nil {
+				min = map[string]int{}
+			}
+			fx.baseConns = min
 			return true
 		}
 		last = o
@@ -184,11 +207,20 @@ func (fx *fixture) takeBaseline() bool {
 func (fx *fixture) settle(max time.Duration) leakObs {
 	fx.srv.HTTPClient.CloseIdleConnections()
 	deadline := time.Now().Add(max)
+	hard := deadline.Add(120 * time.Second)
 	sleep := 20 * time.Millisecond
 	for {
 		o := fx.observe()
-		if o.err != nil || !o.persistentTrouble() || time.Now().After(deadline) {
+		if o.err != nil || !o.persistentTrouble() {
 			return o
+		}
+		if time.Now().After(deadline) {
+			// A handler that is still working (not parked) belongs to a request
+			// that has not ended yet: keep waiting for it, bounded.
+			if len(liveSigs(o.sigDiff)) == 0 || time.Now().After(hard) {
+				return o
+			}
+			fx.r.Count("slow-handler.waited-for")
 		}
 		time.Sleep(sleep)
 		if sleep < 2*time.Second {
@@ -235,7 +267,9 @@ func (fx *fixture) leakCheck(when string) {
 		return
 	}
 	fx.origin.ReleaseStalls() // nothing of ours is outstanding any more
-	defer func(t time.Time) { fx.r.CountN("ms.leakcheck", time.Since(t).Milliseconds()) }(time.Now())
+	if devTimings {
+		defer func(t time.Time) { fx.r.CountN("ms.leakcheck", time.Since(t).Milliseconds()) }(time.Now())
+	}
 	o := fx.settle(settleMax)
 	if o.err != nil {
 		if fx.child.Exited() {
@@ -251,6 +285,17 @@ func (fx *fixture) leakCheck(when string) {
 	fx.r.Count("leakcheck.runs")
 	fx.finalSigs = o.sigs
 	clean := true
+	live := liveSigs(o.sigDiff)
+	if len(live) > 0 {
+		// still working after the settle period plus two minutes: slow machine or
+		// endless loop - the persistent-state rule (parked goroutine) does not decide
+		fx.r.Inconclusive(fmt.Sprintf("%s: handler goroutine(s) still working, not parked, long after every client call ended: %v", fx.p.name, live))
+		for _, sig := range live {
+			delete(o.sigDiff, sig)
+		}
+		fx.rememberCacheFDs(o.cacheFDs)
+		o.cacheFDs = nil
+	}
 	for sig, n := range o.sigDiff {
 		clean = false
 		fn := sigFunc(sig)
@@ -271,7 +316,7 @@ func (fx *fixture) leakCheck(when string) {
 	if len(o.cacheFDs) > 0 {
 		clean = false
 		fx.violation("C14:leak:fd:cache-file", fmt.Sprintf("the server still holds %d open descriptor(s) on cache files with no request in flight", len(o.cacheFDs)),
-			map[string]any{"when": when, "open_cache_files": head(o.cacheFDs, 8), "requests_since_last_clean_check": fx.windowSummary()})
+			map[string]any{"when": when, "open_cache_files": head(o.cacheFDs, 8), "fdinfo": fx.fdInfo(), "requests_since_last_clean_check": fx.windowSummary()})
 		fx.rememberCacheFDs(o.cacheFDs)
 	}
 	for k, v := range o.conns {
@@ -283,7 +328,16 @@ func (fx *fixture) leakCheck(when string) {
 		case strings.HasPrefix(k, "outgoing:"):
 			what = fmt.Sprintf("%d established connections to the %s although no request is in flight (an idle pool keeps at most two): requests that ended still hold their outgoing connection", v, strings.TrimPrefix(k, "outgoing:"))
 		}
-		fx.violation("C14:leak:conn:"+k, what, map[string]any{"when": when, "count": v, "requests_since_last_clean_check": fx.windowSummary()})
+		var table []string
+		if socks, err := childSockets(fx.child.Pid()); err == nil {
+			for _, s := range socks {
+				if s.state != "LISTEN" {
+					table = append(table, fmt.Sprintf("%d<->%d %s", s.localPort, s.remotePort, s.state))
+				}
+			}
+		}
+		fx.violation("C14:leak:conn:"+k, what, map[string]any{"when": when, "count": v, "server_sockets": table,
+			"ports": fmt.Sprintf("http=%s grpc=%s", fx.child.HTTPAddr, fx.child.GRPCAddr), "requests_since_last_clean_check": fx.windowSummary()})
 		if fx.leakedConns == nil {
 			fx.leakedConns = map[string]int{}
 		}
@@ -366,6 +420,86 @@ func (fx *fixture) leakCheck(when string) {
 	fx.windowKinds = map[string]int{}
 }
 
+// parked wait reasons: a goroutine in one of these is waiting for somebody
+// else; anything else (runnable, running, syscall, GC assist ...) is a handler
+// that is still working, i.e. a request that has not ended yet.
+var parkedStates = []string{"chan receive", "chan send", "select", "IO wait", "semacquire", "sync.Mutex.Lock", "sync.RWMutex", "sync.Cond.Wait", "sync.WaitGroup.Wait", "sleep"}
+
+// liveSigs returns the signatures (not in the baseline) of goroutines that are
+// not parked.
+func liveSigs(diff map[string]int) []string {
+	var out []string
+	for sig := range diff {
+		st := ""
+		if i := strings.LastIndex(sig, " ["); i >= 0 {
+			st = strings.TrimSuffix(sig[i+2:], "]")
+		}
+		parked := false
+		for _, p := range parkedStates {
+			if strings.HasPrefix(st, p) {
+				parked = true
+			}
+		}
+		if !parked {
+			out = append(out, sig)
+		}
+	}
+	sort.Strings(out)
+	return out
+}
+
+// waitCacheFDsGone polls until the child holds no unreported descriptor on
+// cache files. After the generous wait it looks at the goroutines: while a
+// handler of an earlier request is still working (not parked) its request has
+// not ended, so the wait goes on (bounded); such a slow but live handler is
+// never a violation.
+func (fx *fixture) waitCacheFDsGone(wait time.Duration) (files []string, diffSigs string, stacks []string, stillWorking bool) {
+	poll := func(deadline time.Time) bool {
+		sleep := 2 * time.Millisecond
+		for {
+			_, _, files = fx.fdClasses()
+			files = fx.newCacheFDs(files)
+			if len(files) == 0 {
+				return true
+			}
+			if time.Now().After(deadline) || fx.child.Exited() {
+				return false
+			}
+			time.Sleep(sleep)
+			if sleep < 500*time.Millisecond {
+				sleep *= 2
+			}
+		}
+	}
+	if poll(time.Now().Add(wait)) {
+		return nil, "", nil, false
+	}
+	hard := time.Now().Add(120 * time.Second)
+	for !fx.child.Exited() {
+		dump, err := fx.child.GoroutineDump()
+		if err != nil {
+			return files, "", nil, false
+		}
+		d := lib.SigDiff(fx.base.sigs, lib.GoroutineSignatures(dump))
+		diffSigs = lib.SigString(d)
+		stacks = nil
+		for sig := range d {
+			stacks = append(stacks, stacksFor(dump, sigFunc(sig), 1)...)
+		}
+		if len(liveSigs(d)) == 0 {
+			return files, diffSigs, stacks, false // nothing is working on it any more: held for nobody
+		}
+		if time.Now().After(hard) {
+			return files, diffSigs, stacks, true
+		}
+		fx.r.Count("slow-handler.waited-for")
+		if poll(time.Now().Add(5 * time.Second)) {
+			return nil, "", nil, false
+		}
+	}
+	return files, diffSigs, stacks, false
+}
+
 // cacheFDProbe runs right after a client aborted the transfer of a large blob:
 // once the server has noticed the abort no descriptor may point into the cache
 // directory (the child is otherwise idle, so nothing else opens cache files).
@@ -374,64 +508,61 @@ func (fx *fixture) cacheFDProbe(o *op) {
 	if len(fx.leakedFDs) >= 3 {
 		wait = 2 * time.Second // established three times with the generous period on this child; keep exploring
 	}
-	deadline := time.Now().Add(wait)
-	sleep := 2 * time.Millisecond
-	var files []string
-	for {
-		_, _, files = fx.fdClasses()
-		files = fx.newCacheFDs(files)
-		if len(files) == 0 {
-			fx.r.Count("abort-probe.clean")
-			return
-		}
-		if time.Now().After(deadline) {
-			break
-		}
-		time.Sleep(sleep)
-		if sleep < 500*time.Millisecond {
-			sleep *= 2
-		}
+	files, sigs, stacks, working := fx.waitCacheFDsGone(wait)
+	if len(files) == 0 {
+		fx.r.Count("abort-probe.clean")
+		return
 	}
 	if fx.child.Exited() {
 		return
 	}
-	extraSigs := ""
-	if dump, err := fx.child.GoroutineDump(); err == nil {
-		extraSigs = lib.SigString(lib.SigDiff(fx.base.sigs, lib.GoroutineSignatures(dump)))
-	}
-	fx.violation("C14:leak:fd:cache-file:"+o.ep+":"+o.gen,
-		fmt.Sprintf("%d descriptor(s) on cache files are still open %v after the client aborted the transfer and no other request is in flight", len(files), wait),
-		map[string]any{"open_cache_files": head(files, 8), "goroutines_not_in_baseline": extraSigs})
 	fx.rememberCacheFDs(files)
+	if working {
+		fx.r.Inconclusive(fmt.Sprintf("%s: a handler is still working (%s) two minutes after its client left; slow machine or endless loop, cannot tell", fx.p.name, sigs))
+		return
+	}
+	fx.violation("C14:leak:fd:cache-file:"+o.ep+":"+o.keyClass(),
+		fmt.Sprintf("%d descriptor(s) on cache files are still open %v after the client aborted the transfer, no other request is in flight and no handler is working", len(files), wait),
+		map[string]any{"open_cache_files": head(files, 8), "fdinfo": fx.fdInfo(), "goroutines_not_in_baseline": sigs, "stacks": stacks})
 }
 
 // cacheFDsBefore runs before a request whose descriptors will be probed: what
-// is open on cache files now (and stays open for a moment although nothing is
-// in flight) was left behind by an earlier request of the window.
+// is open on cache files now (and stays open although nothing is in flight and
+// no handler is working) was left behind by an earlier request of the window.
 func (fx *fixture) cacheFDsBefore() {
-	var files []string
-	deadline := time.Now().Add(8 * time.Second) // generous: background uploads to a proxy backend may still read their file
-	sleep := 2 * time.Millisecond
-	for {
-		_, _, files = fx.fdClasses()
-		files = fx.newCacheFDs(files)
-		if len(files) == 0 {
-			return
-		}
-		if time.Now().After(deadline) {
-			break
-		}
-		time.Sleep(sleep)
-		if sleep < 500*time.Millisecond {
-			sleep *= 2
-		}
-	}
-	if fx.child.Exited() {
+	files, sigs, stacks, working := fx.waitCacheFDsGone(8 * time.Second) // generous: background uploads to a proxy backend may still read their file
+	if len(files) == 0 || fx.child.Exited() {
 		return
 	}
-	fx.violation("C14:leak:fd:cache-file", fmt.Sprintf("the server holds %d open descriptor(s) on cache files with no request in flight (left behind by an earlier request of the journal)", len(files)),
-		map[string]any{"when": "before the next probed request", "open_cache_files": head(files, 8), "requests_since_last_clean_check": fx.windowSummary()})
 	fx.rememberCacheFDs(files)
+	if working {
+		fx.r.Inconclusive(fmt.Sprintf("%s: a handler is still working (%s) two minutes after its client got or gave up its answer; slow machine or endless loop, cannot tell", fx.p.name, sigs))
+		return
+	}
+	fx.violation("C14:leak:fd:cache-file", fmt.Sprintf("the server holds %d open descriptor(s) on cache files with no request in flight and no handler working (left behind by an earlier request of the journal)", len(files)),
+		map[string]any{"when": "before the next probed request", "goroutines_not_in_baseline": sigs, "stacks": stacks, "open_cache_files": head(files, 8), "fdinfo": fx.fdInfo(),
+			"requests_since_last_clean_check": fx.windowSummary()})
+}
+
+// fdInfo describes the child's descriptors on cache files (open flags and
+// position tell a forgotten reader from a forgotten writer).
+func (fx *fixture) fdInfo() []string {
+	dir := fmt.Sprintf("/proc/%d/fd", fx.child.Pid())
+	es, _ := os.ReadDir(dir)
+	var out []string
+	for _, e := range es {
+		t, err := os.Readlink(filepath.Join(dir, e.Name()))
+		if err != nil || !strings.HasPrefix(t, fx.dir+"/") {
+			continue
+		}
+		info, _ := os.ReadFile(fmt.Sprintf("/proc/%d/fdinfo/%s", fx.child.Pid(), e.Name()))
+		fs := strings.Fields(string(info))
+		if len(fs) > 4 {
+			fs = fs[:4] // pos: N flags: 0NNN
+		}
+		out = append(out, fmt.Sprintf("fd %s -> %s (%s)", e.Name(), strings.TrimPrefix(t, fx.dir+"/"), strings.Join(fs, " ")))
+	}
+	return out
 }
 
 func head(s []string, n int) []string {
